@@ -174,6 +174,23 @@ def run_case(case):
         gv = np.ma.filled(np.ma.asarray(quiver.V, dtype='float64'), np.nan)
         rec.check(ref.same_values(gu, labels(eta, (0,))) and ref.same_values(gv, labels(eta, (1,))), f"{fp}/arrow-components",
                   f"{label}: arrow k does not carry the components of cell k", labels(eta, (0,))[:6], gu[:6])
+    # a component taken from a second dataset on the same grid (same dimensions, other coordinate labels):
+    # values are paired with cells by position
+    other_spec = dict(case)
+    other_spec.update({'seed': case.get('seed', 0) + 3, 'lon0': case.get('lon0', 0.0 if case['family'] == 'ugrid' else 10.0) + 5.0})
+    other, other_truth = builders.build(other_spec)
+    other_labels = ref.expected_values(other_truth.vars['eta'], nface, other_truth.shift)[1].astype('float64')
+    try:
+        quiver = lib(convention.make_quiver, axes, u, other['eta'].isel({time_dim: 1}))
+        gu = np.ma.filled(np.ma.asarray(quiver.U, dtype='float64'), np.nan)
+        gv = np.ma.filled(np.ma.asarray(quiver.V, dtype='float64'), np.nan)
+        rec.check(ref.same_values(gu, labels(eta, (0,))) and ref.same_values(gv, other_labels), f"{fp}/arrow-components",
+                  "vector with one component from a second dataset on the same grid", other_labels[:6], gv[:6])
+        c = collection_of('scalar from a second dataset', other['eta'].isel({time_dim: 1}))
+        if c is not None:
+            check_collection('scalar from a second dataset', c, other_labels)
+    except LibraryRaised as err:
+        rec.check(False, f"{fp}/quiver-raised", "vector with a component from a second dataset raised", 'Quiver', str(err))
     for label, call in (
         ('vector with leftover dimension', lambda: convention.make_quiver(axes, ds['eta'], ds['eta'])),
         ('vector components with different dims', lambda: convention.make_quiver(axes, u, ds['botz'].transpose(*gdims[::-1]) if len(gdims) > 1 else ds['eta'])),
